@@ -58,10 +58,12 @@ impl<'a, C: CellType> JitEnv<'a, C> {
 }
 
 impl<'a, C: CellType> Env for JitEnv<'a, C> {
-    fn ctx_read(&mut self, off: u64) -> Result<u64, String> {
-        Ok(self.word(off))
+    fn ctx_read(&mut self, off: u64) -> Result<T, String> {
+        let v = self.word(off);
+        Ok(with(|c| c.ar.konst(64, v)))
     }
-    fn ctx_write(&mut self, off: u64, v: u64) -> Result<(), String> {
+    fn ctx_write(&mut self, off: u64, v: T) -> Result<(), String> {
+        let v = with(|c| c.ar.as_const(v)).ok_or("a symbolic value is stored into a context word")?;
         if off != 16 && off != 24 {
             return Err(format!("generated code writes the context word at offset {} (only the tape offset and the budget are its to write)", off));
         }
@@ -207,6 +209,7 @@ fn run_typed<C: CellType>(p: &JitProg, mode: Mode, no_input: bool, no_output: bo
         }
         Exit::Fault(s) => Ret::Err(format!("x86 model: {}", s)),
         Exit::StepCap => engine::abort(engine::Abort::Truncated("cell-operation cap reached".into())),
+        Exit::Stopped => Ret::Err("x86 model: unexpected stop".into()),
     };
     let (events, seam_errors) = with(|c| (std::mem::take(&mut c.events), std::mem::take(&mut c.seam_errors)));
     SubOutcome { ret, events, seam_errors }
@@ -287,5 +290,6 @@ pub fn run_window<C: CellType>(code: &[u8], entry_points: [usize; 3], cells: &[T
         }
         Exit::Fault(s) => Err(s),
         Exit::StepCap => Err("step cap".into()),
+        Exit::Stopped => Err("unexpected stop".into()),
     }
 }
